@@ -1004,6 +1004,10 @@ func (rs *RelationService) MarkDeleted(tableName string, rowID uint32) (WALBatch
 		cellID: cell.key,
 	})
 
+	// every log record needs its own LSN, otherwise replay takes the next
+	// record for this page as already applied
+	rs.fs.incrLSN()
+
 	return walLogs, nil
 }
 
